@@ -48,6 +48,9 @@ pub struct Scn {
     pub listener_panic: bool,
     pub reqs: Vec<ReqSpec>,
     pub knobs: SchedKnobs,
+    /// seed of the order of the builder's setters (0 = as in the docs), with decoy calls first
+    #[serde(default)]
+    pub order: u64,
 }
 
 pub fn gen(rng: &mut Rng) -> Scn {
@@ -126,6 +129,7 @@ pub fn gen(rng: &mut Rng) -> Scn {
         listener_panic: rng.chance(1, 8),
         reqs,
         knobs: SchedKnobs::gen(rng, true, 100),
+        order: if rng.chance(1, 3) { rng.next_u64() | 1 } else { 0 },
     }
 }
 
@@ -205,15 +209,45 @@ pub fn run(s: &Scn, ctx: &mut RunCtx) -> RunOutput {
             Backoff::Fixed(ms) => Arc::new(FixedInterval::new(Duration::from_millis(*ms))),
             Backoff::Exponential(ms) => Arc::new(ExponentialBackoff::new(Duration::from_millis(*ms))),
         };
-        let mut b = RetryLayer::<Req, SimErr>::builder().backoff(LogInterval(inner_fn));
-        if scn.per_request {
-            let tv: Vec<u32> = scn.reqs.iter().map(|r| r.max_attempts).collect();
-            b = b.max_attempts_fn(move |r: &Req| tv[r.id as usize] as usize);
-        } else {
-            b = b.max_attempts(scn.max_attempts as usize);
+        let mut b = RetryLayer::<Req, SimErr>::builder();
+        let mut order: Vec<usize> = (0..3).collect();
+        if scn.order != 0 {
+            let mut r = Rng::new(scn.order);
+            for i in (1..order.len()).rev() {
+                let j = r.below(i as u64 + 1) as usize;
+                order.swap(i, j);
+            }
+            // decoys, overwritten by the real settings below (the last call wins)
+            b = b.fixed_backoff(Duration::from_millis(3)).max_attempts(scn.max_attempts as usize + 2);
+            if scn.per_request {
+                b = b.max_attempts(7);
+            } else {
+                b = b.max_attempts_fn(|_: &Req| 6);
+            }
+            if scn.predicate == 1 {
+                b = b.retry_on(|_: &SimErr| true);
+            }
         }
-        if scn.predicate == 1 {
-            b = b.retry_on(|e: &SimErr| e.kind == 0);
+        let mut backoff = Some(LogInterval(inner_fn));
+        for k in order {
+            b = match k {
+                0 => b.backoff(backoff.take().unwrap()),
+                1 => {
+                    if scn.per_request {
+                        let tv: Vec<u32> = scn.reqs.iter().map(|r| r.max_attempts).collect();
+                        b.max_attempts_fn(move |r: &Req| tv[r.id as usize] as usize)
+                    } else {
+                        b.max_attempts(scn.max_attempts as usize)
+                    }
+                }
+                _ => {
+                    if scn.predicate == 1 {
+                        b.retry_on(|e: &SimErr| e.kind == 0)
+                    } else {
+                        b
+                    }
+                }
+            };
         }
         if let Some(bs) = &scn.budget {
             let real: Arc<dyn RetryBudget> = match bs {
